@@ -220,10 +220,9 @@ def replay(col, item):
                 fs = None
                 FM.atexit = NoAtexit()
             elif a == "reset":
-                if seq % 2:
-                    fs.reset_cache()
-                else:
-                    fs.time_coverage = fs.time_coverage
+                # (assigning an UNCHANGED time_coverage also resets the cache today, but an implementation that skipped
+                #  that would be just as right: only reset_cache() is documented to empty it)
+                fs.reset_cache()
             elif a == "crash":
                 fs = None
                 FM.atexit = NoAtexit()
